@@ -14,26 +14,30 @@ Local Open Scope Z_scope.
    all-zero buffer; otherwise exactly the encoding, the bytes behind it
    untouched, and its size returned *)
 Theorem C02_message_every_capacity : forall a tags args,
-  args_wf tags args ->
+  args_wf tags args -> code_range a tags args ->
   let enc := enc_spec a tags args in
   amessage None a tags args = Ok (zlen enc, None) /\
   forall buf,
     amessage (Some buf) a tags args =
     if zlen buf <? zlen enc then Ok (0, Some (zeros (zlen buf)))
     else Ok (zlen enc, Some (enc ++ skipn (length enc) buf)).
-Proof. exact amessage_spec. Qed.
+Proof. exact amessage_spec_r. Qed.
 
-(* the fixed-capacity callers: RtData::reply / broadcast build into a
-   8192-byte stack buffer, ThreadLink::write / writeArray into MaxMsg bytes:
-   an encoding that does not fit is replaced by an all-zero buffer (the empty
-   message) and 0 is returned, nothing is written outside *)
+(* the constructor read at a fixed capacity [cap]: an encoding that does not
+   fit is replaced by an all-zero buffer (the empty message) and 0 is
+   returned, nothing is written outside.  This is what the fixed-capacity
+   callers rely on - RtData::reply / broadcast build into a 8192-byte stack
+   buffer, ThreadLink::write / writeArray into MaxMsg bytes.  The callers
+   themselves are NOT modelled: they are tied to this statement only by the
+   correspondence streams rt and tl (tools/props/C02.py), which demand that
+   they forward exactly this result for their capacity *)
 Theorem C02_fixed_capacity : forall cap a tags args buf,
-  args_wf tags args -> zlen buf = cap ->
+  args_wf tags args -> code_range a tags args -> zlen buf = cap ->
   let enc := enc_spec a tags args in
   amessage (Some buf) a tags args =
   if cap <? zlen enc then Ok (0, Some (zeros cap))
   else Ok (zlen enc, Some (enc ++ skipn (length enc) buf)).
-Proof. exact amessage_fixed_capacity. Qed.
+Proof. exact amessage_fixed_capacity_r. Qed.
 
 (* the write pass applied to a zeroed region of exactly its own span leaves
    what follows untouched (the frame lemma behind "never writes outside") *)
